@@ -731,6 +731,50 @@ def declared_after_extension(ctx):
                         ctx.event("after_extension_checked")
 
 
+def pointer_width_switched(ctx):
+    """Pointer types keep the width they were made with: after cs.pointer was reassigned, len / sizeof / bytes consumed /
+    bytes dumped of a structure declared before still agree (the layout is the one of the first width), and a structure
+    declared afterwards has the new width."""
+    import io
+
+    sizes = {"uint8": 1, "uint16": 2, "uint32": 4, "uint64": 8}
+    text = "typedef char *PSTR;\nstruct T { uint8 h; PSTR s; uint16 *arr[2]; uint8 t; };"
+    for align in (False, True):
+        for compiled in (True, False):
+            for w1, w2 in (("uint64", "uint32"), ("uint32", "uint64"), ("uint16", "uint64"), ("uint64", "uint8"), ("uint8", "uint16")):
+                ctx.evaluation(("pointer-width-switched", align, compiled, w1, w2))
+                ctx.cell("pointer-width-switched")
+                det = {"text": text, "align": align, "compiled": compiled, "first": w1, "second": w2, "workload": "pointer-width-switched"}
+                try:
+                    cs = lib.cstruct(pointer=w1)
+                    cs.load(text, align=align, compiled=compiled)
+                    cs.pointer = getattr(cs, w2)
+                    cs.load(text.replace("PSTR", "PSTR2").replace("struct T", "struct U"), align=align, compiled=compiled)
+                    cs.load("struct P__ { char pad[sizeof(T)]; uint8 m; };")
+
+                    def lay(w):
+                        a = w if align else 1
+                        off = -(-1 // a) * a          # h, then the first pointer
+                        end = off + 3 * w + 1
+                        return -(-end // a) * a
+                    facts, want = {}, {}
+                    for nm, w in (("T", sizes[w1]), ("U", sizes[w2])):
+                        S = getattr(cs, nm)
+                        data = bytes(range(1, lay(w) + 9))
+                        st = io.BytesIO(data)
+                        o = S(st)
+                        facts[nm] = (len(S), st.tell(), len(o.dumps()), len(S().dumps()), o.write(io.BytesIO()))
+                        want[nm] = (lay(w),) * 5
+                    facts["sizeof"], want["sizeof"] = len(cs.P__) - 1, lay(sizes[w1])
+                except Exception as e:  # noqa: BLE001
+                    ctx.violation("pointer-width", f"pointer-width-switch-raises:{type(e).__name__}", dict(det, error=lib.exc_sig(e)))
+                    continue
+                if facts != want:
+                    ctx.violation("pointer-width", "size-read-write-disagree-after-the-pointer-type-was-switched", dict(det, got=repr(facts), want=repr(want)))
+                else:
+                    ctx.event("pointer_width_switches_checked")
+
+
 def run(ctx):
     mixed_modes(ctx, 10 if not ctx.thorough else 150)
     if ctx.shard == 0:
@@ -740,6 +784,8 @@ def run(ctx):
         sizeof_of_a_name_that_is_also_a_member(ctx)
     if ctx.shard == 3:
         declared_after_extension(ctx)
+    if ctx.shard == 4:
+        pointer_width_switched(ctx)
     if ctx.shard % 4 == 2:
         custom_alignments(ctx, ctx.rng("custom-alignments"), 6 if not ctx.thorough else 60)
     offset_gaps(ctx, 6 if not ctx.thorough else 120)
@@ -764,6 +810,10 @@ def replay(ctx, detail):
         return
     if detail.get("workload") == "empty-structures":
         empty_structures(ctx)
+        return
+    if detail.get("workload") == "pointer-width-switched":
+        print(detail)
+        pointer_width_switched(ctx)
         return
     if detail.get("workload") == "after-extension":
         print(detail)
